@@ -51,9 +51,12 @@ Q = {
     'deferred': [('0,1;0,1/0,1;0,1/2,3;2,3', {'mk': 3}, 500, 'random'), ('0;1/1;0/2,3,4,5/2,5', {'mk': 1}, 300, 'random')],
     'guarded': [P('0,1,3,4,8,9,10/0,1,3,4,8,9,10/0;9', 0, 0, 300), P('0,1,2,3/5,6,7,14/5,6,7;0', 2, 3, 400), P('11;11/12,5,8/12,6,9;11', 4, 2, 300),
                 P('0,1,2,3,4,13/5,6,7/5,6,7', 3, 3, 300)],
-    'latch': [('0/0/1/2/1', {'count': 2}, 400, 'random'), ('2/2/2/1', {'count': 3}, 300, 'random')],
-    'barrier': [('0;0;0/0;0;0/0;0;0', {}, 300, 'random'), ('0;0;1/0;1/0;0;0', {}, 300, 'random')],
-    'trigger': [('%s;%s/%s;%s/0,1,6,7,8;0,1,6,7,8' % ((TALL,) * 4), {'active': 1}, 400, 'random'), ('0;1/2;4/6/3;5', {'active': 0}, 300, 'random')],
+    'latch': [('0/0/1/2/1', {'count': 2}, 400, 'random'), ('2/2/2/1', {'count': 3}, 300, 'random'),
+              # publication through the latch (fast path included): exactly `count` arrivals, each publishing a datum
+              ('0/0/1/1', {'count': 2, 'data': 1}, 400, 'random'), ('2/2/1;1', {'count': 2, 'data': 1}, 300, 'random'), ('0/2/0/1', {'count': 3, 'data': 1}, 300, 'random')],
+    'barrier': [('0;0;0/0;0;0/0;0;0', {'data': 1}, 300, 'random'), ('0;0;1/0;1/0;0;0', {'data': 1}, 300, 'random')],
+    'trigger': [('%s;%s/%s;%s/0,1,6,7,8;0,1,6,7,8' % ((TALL,) * 4), {'active': 1}, 400, 'random'), ('0;1/2;4/6/3;5', {'active': 0}, 300, 'random'),
+                ('1/2/3;8/8;2', {'active': 1, 'data': 1}, 400, 'random')],
     'tripwire': [('31/41;41;41/41;11', {}, 500, 'random'), ('35/45;45/33/43;43', {}, 400, 'random'), ('31,11,12,2,22,50/11,41,12,2,22,50;11,41,12,2,22,50', {}, 400, 'random')],
     'dobj': [('%s;%s/%s;%s/%s' % ((KALL,) * 5), {}, 400, 'random')],
     'holder': [('%s;%s/%s;%s/%s' % ((ALLH,) * 5), {}, 300, 'random')],
